@@ -9,7 +9,8 @@ class C02(CacheProp):
     rule = ("gate-controlled histories with unique value ids: overwrite while an earlier write is still buffered, delete "
             "and re-insert, eviction vs overwrite of the same key, sweep vs rewrite (op sweeprw), Clear; every Get result "
             "compared with the machine; oracle: no Get returns a value after its OnExit; non-trivial = an eviction, "
-            "rejection or blocked call occurred")
+            "rejection or blocked call occurred"
+            " Plus, as search only: the concurrent stress harness with the oracle 'a Get never returns a value whose OnExit finished before the Get started'.")
 
     def oracle(self, case, il):
         fails = []
